@@ -526,8 +526,13 @@ archive_read_open1(struct archive *_a)
 
 	a->archive.state = ARCHIVE_STATE_HEADER;
 
-	/* Ensure libarchive starts from the first node in a multivolume set */
-	client_switch_proxy(a->filter, 0);
+	/*
+	 * Bidding only peeks, so the stream position is still zero here.  If
+	 * the look-ahead already crossed into a later node of a multivolume
+	 * set, that data is buffered in order and reading simply continues
+	 * from the node reached; switching back to the first node would
+	 * re-read it and invalidate the buffers just filled.
+	 */
 	return (e);
 }
 
